@@ -981,7 +981,7 @@ pub fn cases(kind: &str, tier: &str, seed: u64) -> Vec<Value> {
                 v.push(json!({"t":"amf","shape":"flat","byte":5,"len":16777215}));
                 v.push(json!({"t":"amf","shape":"flat","byte":1,"len":16777215}));
             }
-            for _ in 0..(if thorough { 40000 } else { 600 }) {
+            for _ in 0..(if thorough { 150000 } else { 600 }) {
                 v.push(json!({"t":"amf","shape":"garbage","len":*rng.pick(&[10u64, 100, 1000, 20000]),"seed":rng.next() >> 1}));
             }
         }
